@@ -1,5 +1,6 @@
 """C02 - source-to-AST fidelity (structural clauses)."""
 import re
+import decisions
 
 from mirlib import AnchorMissing, op_place
 from helpers import (aggregates, arm, enum_switches, loop_of, must_pass, vexpr, variant_str_table, field_accesses)
@@ -884,3 +885,5 @@ def run(ctx):
     ctx.run_rule('C02.10', 'T13', 'conditions under which grammar helpers report, return and mutate (precondition ledger)', r_helper_preconditions, prog)
     ctx.run_rule('C02.11', 'T13', 'conditions under which the Slice lexer consumes, returns and switches modes (precondition ledger)', r_lexer_preconditions, prog)
     ctx.run_rule('C02.12', 'T13', 'conditions under which a parsed file is handed back or dropped (precondition ledger of the parser entry points)', r_parser_entry, prog)
+    ctx.run_rule('C02.8b', 'T3', 'string literal escape machine', decisions.r_string_literal_escapes, prog)
+    ctx.run_rule('C02.13', 'T2', 'a parsed file is handed back exactly when parsing succeeded without errors', decisions.r_parser_entries, prog, ('slice', 'preprocessor'))
